@@ -118,13 +118,35 @@ def atom_of(p, binder=None):
                         # int(bits(world)[idx])
                         if isinstance(o, tuple) and o[0] == "int" and isinstance(o[1], tuple) and o[1][0] == "elem" and isinstance(o[1][1], tuple) and o[1][1][0] == "at":
                             at = o[1][1]
+                            if isinstance(at[2], tuple) and at[2][:1] == ("lin",):
+                                np_ = _norm_pos(at[2][1])
+                                np_ = (tuple((t_, c_) for t_, c_ in np_[0] if c_ != 0), np_[1])
+                                at = (at[0], at[1], ("lin", np_))
                             if at[2] == ("lin", (((idx, 1),), 0)):
                                 w = _wnorm(at[1], binder)
                                 return (what, w, k)
                             if isinstance(at[2], tuple) and at[2][0] == "lin" and len(at[2][1][0]) == 1 and at[2][1][0][0][0][0] in ("aidx", "cidx"):
                                 raise MixedTest(f"bit at {at[2][1][0][0][0]} compared with {val}")
+                            if isinstance(at[2], tuple) and at[2][0] == "lin" and any(isinstance(t_, tuple) and t_[:1] in (("aidx",), ("cidx",)) for t_, c_ in at[2][1][0]):
+                                # the position of some literal enters, but the bit read is not the one at that position
+                                raise MixedTest(f"bit at position {F.show_lin(at[2][1])} compared with {val} (the atom of that literal sits at position {idx[0]}_{idx[1]} of the world)")
         return None
     return None
+
+
+def _norm_pos(lin):
+    """A position expression with `element at position p of range(lo, hi)` replaced by lo + p."""
+    out = F.lin_const(lin[1])
+    for t, c in lin[0]:
+        if isinstance(t, tuple) and len(t) == 3 and t[0] == "elem" and t[2] == "pos" and isinstance(t[1], tuple) and len(t[1]) == 3 and t[1][0] == "at" \
+                and isinstance(t[1][1], tuple) and t[1][1][:1] == ("range",) and len(t[1][1]) == 3 and isinstance(t[1][2], tuple) and t[1][2][:1] == ("lin",):
+            out = F.lin_add(out, F.lin_add(t[1][1][1], _norm_pos(t[1][2][1])), c)
+        elif isinstance(t, tuple) and len(t) == 2 and t[0] == "len" and isinstance(t[1], tuple) and t[1][:1] in (("var",), ("obj",)):
+            # a world is a bit string over the signature: it is as long as the signature
+            out = F.lin_add(out, F.lin_term(("len", ("signature",))), c)
+        else:
+            out = F.lin_add(out, F.lin_term(t), c)
+    return out
 
 
 class MixedTest(Exception):
